@@ -22,6 +22,7 @@ func VerifC11Hist() {
 	pinAt := make([]int64, nTxn)
 	bases := []int64{0, 95 * sec / 10, 195 * sec / 10, 295 * sec / 10}
 	eps := verifInt("eps", 0, sec) // one symbolic offset shared by all steps of a history
+	failsafe := verifBool("failsafe") // the reloads of this history are fail-safe reverts or apply_policies
 	for s := 0; s < S; s++ {
 		b := bases[verifChoose(fmt.Sprintf("adv%d", s), len(bases))]
 		if b > 0 {
@@ -33,7 +34,10 @@ func VerifC11Hist() {
 			// apply-policies / fail-safe revert: the version bookkeeping of UpdatePoliciesData
 			nv := &PoliciesData{}
 			versions = append(versions, nv)
-			acc.setNextVersion(nv)
+			// the reload as apply_policies (false) or a fail-safe revert (true) performs it; the calls
+			// to HAProxy's admin socket are the environment
+			err := acc.UpdatePoliciesData(nv, failsafe)
+			verifAssert(err == nil, "the reload succeeds")
 			current = nv
 			verifDrain()
 			verifReach("reload")
@@ -60,3 +64,7 @@ func VerifC11Hist() {
 		}
 	}
 }
+
+func verifStub_config_ManageHAProxyEndpoints(req *HAProxyEndpointsRequest) error { return nil }
+func verifStub_config_unmanageHAProxyEndpoints(eps []*HAProxyEndpointData) error { return nil }
+func verifStub_config_unmanageGlobal() error                                     { return nil }
